@@ -29,8 +29,10 @@ def cents(rng, lo, hi):
 
 def pick_value(rng, model, op):
     u = rng.rand()
-    if op == "SetPol":
+    if op in ("SetPol", "SetShadow"):
         return bool(rng.randint(2))
+    if op == "SetSigma":
+        return [Fraction(0), Fraction(8), cents(rng, 0, 12)][rng.randint(3)]
     if op == "SetN":
         return cents(rng, 1.5, 6)
     if op == "SetArea":
@@ -49,8 +51,10 @@ def pick_value(rng, model, op):
     return cents(rng, 0, 2 * hi)
 
 
-OPS = {"general": ["SetPol"], "3gpp1": ["SetPol"], "freespace": ["SetPol", "SetN", "SetFc", "SetN", "SetFc"],
-       "metis": ["SetPol", "SetFc", "SetFc"], "hata": ["SetPol", "SetFc", "SetHbs", "SetHms", "SetArea", "SetFc", "SetHbs"]}
+COMMON = ["SetPol", "SetShadow", "SetSigma"]
+OPS = {"general": COMMON, "3gpp1": COMMON, "freespace": COMMON + ["SetN", "SetFc", "SetN", "SetFc", "SetPol"],
+       "metis": COMMON + ["SetFc", "SetFc", "SetPol"],
+       "hata": COMMON + ["SetFc", "SetHbs", "SetHms", "SetArea", "SetFc", "SetHbs", "SetPol"]}
 
 
 def back_to_rat(v):
@@ -67,7 +71,7 @@ def record_one(job):
     from pyphysim.channels import pathloss as P
     rng = np.random.RandomState(seed)
     model = ["freespace", "hata", "metis", "freespace", "hata", "general", "3gpp1"][seed % 7]
-    init = dict(n=[0, 1], fc=[1, 1], hbs=[0, 1], hms=[0, 1], area="", pol=False)
+    init = dict(n=[0, 1], fc=[1, 1], hbs=[0, 1], hms=[0, 1], area="", pol=False, shadow=False, sigma=[8, 1])
     if model == "general":
         n, C = cents(rng, 2, 4), cents(rng, -20, 130)
         o = P.PathLossGeneral(float(n), float(C))
@@ -88,15 +92,16 @@ def record_one(job):
     ev = []
     with warnings.catch_warnings():
         warnings.simplefilter("ignore")
-        for _ in range(nev if len(OPS[model]) > 1 else 3):
+        for _ in range(nev if len(OPS[model]) > 3 else 5):
             op = OPS[model][rng.randint(len(OPS[model]))]
             v = pick_value(rng, model, op)
             e = {"op": op, "arg": v if isinstance(v, (bool, str)) else fr(v)}
             fe = dict(e, op=op)
             fe["out"] = c13.apply_setter(model, o, dict(op=op, arg=({"v": fr(v)} if op == "SetFc" else e["arg"])))[1]
             pr = c13.project(model, o)
-            post = {"pol": pr["pol"] if isinstance(pr["pol"], bool) else str(pr["pol"])}
-            for k, f in (("n", "n"), ("fcv", "fc"), ("hbs", "hbs"), ("hms", "hms")):
+            post = {"pol": pr["pol"] if isinstance(pr["pol"], bool) else str(pr["pol"]),
+                    "shadow": pr["shadow"] if isinstance(pr["shadow"], bool) else str(pr["shadow"])}
+            for k, f in (("n", "n"), ("fcv", "fc"), ("hbs", "hbs"), ("hms", "hms"), ("sigma", "sigma")):
                 if k in pr:
                     post[f] = back_to_rat(pr[k])
             if "area" in pr:
@@ -104,6 +109,12 @@ def record_one(job):
             fe["post"] = post
             walls = (0, 2) if model == "metis" else (0,)
             try:
+                if o.use_shadow_bool is True and o.sigma_shadow > 0:
+                    res = c13.shadow_predicates(model, o, walls=walls, nseeds=3, base_seed=seed % 1000 + len(ev))
+                    fe["preds"] = {k: res[k] is None for k in res}
+                    fe["why"] = {k: v for k, v in res.items() if v}
+                    ev.append(fe)
+                    continue
                 res = c13.rel_predicates(model, o, walls=walls, kmin=-3, kmax=3, per_decade=per_decade,
                                          inverse=model in ("general", "3gpp1", "freespace"))
                 names = ["Monotone", "LinearIsDb", "InUnit", "PolicyArrayScalar", "QueryPure"] + (
